@@ -94,7 +94,7 @@ def run(name, tier, props):
             print(p, res[p])
     finally:
         sh("git -C %s worktree remove --force %s" % (REPO, wt))
-        for tool in ("gen_tables.py", "gen_statics.py"):      # generated Lean files back to what /repo says
+        for tool in ("gen_tables.py", "gen_statics.py", "gen_kernels.py"):      # generated Lean files back to what /repo says
             sh("python3 %s" % os.path.join(HERE, tool), env=dict(os.environ, ST_REPO=REPO))
     meta.setdefault("detected_by", {})[tier] = res
     json.dump(meta, open(os.path.join(dst, "meta.json"), "w"), indent=1)
